@@ -15,6 +15,7 @@ mod c05;
 mod c07;
 mod c08;
 mod c14;
+mod c10;
 mod c15;
 mod c16;
 mod c17;
@@ -80,6 +81,7 @@ fn main() {
         "C07" => c07::run(&mut ctx),
         "C08" => c08::run(&mut ctx),
         "C14" => c14::run(&mut ctx),
+        "C10" => c10::run(&mut ctx),
         "C15" => c15::run(&mut ctx),
         "C16" => c16::run(&mut ctx),
         "C17" => c17::run(&mut ctx),
